@@ -10,8 +10,38 @@ def showSlot : Option Nat → String
   | none => "0"
   | some v => toString v
 
+/-- current run of the slot encoder: nothing yet, `n` zero slots, or the ascending values `a..b` -/
+inductive Run where
+  | empty
+  | zeros (n : Nat)
+  | asc (a b : Nat)
+
+/-- emit the tokens of a finished run (prepended: the token list is built in reverse) -/
+def flush : Run → List String → List String
+  | .empty, acc => acc
+  | .zeros n, acc => (if n == 1 then "0" else s!"0*{n}") :: acc
+  | .asc a b, acc =>
+    if b == a then toString a :: acc
+    else if b == a + 1 then toString b :: toString a :: acc
+    else s!"{a}..{b}" :: acc
+
+/-- LOSSLESS run-length form of the raw slots (0 = cleared slot), the same state machine as
+`encodeSlots` in harness/comp/ring/ring.go: maximal zero runs `0`/`0*z`, maximal ascending runs of
+≥ 3 consecutive non-zero values `v..w`, everything else value by value. -/
+def rle : List Nat → Run → List String → List String
+  | [], run, acc => (flush run acc).reverse
+  | v :: vs, run, acc =>
+    if v == 0 then
+      match run with
+      | .zeros n => rle vs (.zeros (n + 1)) acc
+      | _ => rle vs (.zeros 1) (flush run acc)
+    else
+      match run with
+      | .asc a b => if v == b + 1 then rle vs (.asc a v) acc else rle vs (.asc v v) (flush run acc)
+      | _ => rle vs (.asc v v) (flush run acc)
+
 def showState (r : R) : String :=
-  s!"h={r.head} t={r.tail} e={joinWith "," (r.elems.map showSlot)}"
+  s!"h={r.head} t={r.tail} e={joinWith "," (rle (r.elems.map (·.getD 0)) .empty [])}"
 
 /-- the iterator callback used by both sides: add `d`, stop after an element `x` with `x % m = k`;
 the closure state is an order-sensitive checksum of the values seen (`acc*31 + x mod 2^32`),
